@@ -278,13 +278,18 @@ impl World {
                     s.wake_ok = false;
                 }
                 s.last_pending = false;
-                let text = format!("R:{}", ds.iter().map(show_diff).collect::<Vec<_>>().join("|"));
+                let mut text = format!("R:{}", ds.iter().map(show_diff).collect::<Vec<_>>().join("|"));
+                let batched = matches!(stream, AnyStream::Batched(_));
                 for d in ds {
                     s.delivered += 1;
-                    if let VectorDiff::Reset { .. } = d {
+                    if let VectorDiff::Reset { values } = &d {
                         s.got_reset = true;
                         if s.sent_since_pending <= cap {
                             s.lagreset_ok = false;
+                        }
+                        // C06: a Reset carries the vector's contents as of the moment it is delivered
+                        if !values.iter().eq(shadow.iter()) {
+                            text.push_str(" ok:resetcurrent=0");
                         }
                     }
                     if !ok_in(&d, s.replica.len()) {
@@ -301,6 +306,10 @@ impl World {
                     if s.ptr < s.states.len() && s.states[s.ptr] == s.replica {
                         s.ptr += 1;
                     }
+                }
+                // C06: each item of the batched stream brings its subscriber fully up to date
+                if batched && !s.replica.iter().eq(shadow.iter()) {
+                    text.push_str(" ok:batchcurrent=0");
                 }
                 (text, 'R')
             }
